@@ -47,11 +47,9 @@ Definition add_at (r : Z * Z * Z * Z) (i : Z) (v : Z) : Z * Z * Z * Z :=
 
 (* one iteration of the while loop. Returns None on failure,
    Some (rest, r, num=0, notation) otherwise. The loop ends when *skip_space(c) = 0. *)
-Definition part_step (c0 : str) (num0 : Z) (r : Z*Z*Z*Z) (notation : Z)
+(* the part of one iteration after an optional sign has been consumed *)
+Definition part_body (c : str) (num : Z) (r : Z*Z*Z*Z) (notation : Z)
   : option (str * (Z*Z*Z*Z) * Z) :=
-  let '(num, c) := if (cur c0 =? 43) || (cur c0 =? 45)
-                   then ((if cur c0 =? 43 then DEN else - DEN), skip_space (adv c0))
-                   else (num0, c0) in
   if num =? 0 then None else
   if is_digit (cur c) || (cur c =? 46) then
     let '(n, e1) := strtol10 c in
@@ -91,6 +89,13 @@ Definition part_step (c0 : str) (num0 : Z) (r : Z*Z*Z*Z) (notation : Z)
       else if (den <=? 0) || negb (crem DEN den =? 0) then None
       else Some (c2, add_at r ri (cdiv num den), nt)
     end.
+
+Definition part_step (c0 : str) (num0 : Z) (r : Z*Z*Z*Z) (notation : Z)
+  : option (str * (Z*Z*Z*Z) * Z) :=
+  let '(num, c) := if (cur c0 =? 43) || (cur c0 =? 45)
+                   then ((if cur c0 =? 43 then DEN else - DEN), skip_space (adv c0))
+                   else (num0, c0) in
+  part_body c num r notation.
 
 Inductive res (A : Type) := Ok (a : A) | Fail | OutOfFuel.
 Arguments Ok {A} a. Arguments Fail {A}. Arguments OutOfFuel {A}.
